@@ -567,6 +567,12 @@ fn check_type_relation<T: TypeLookup>(
                 receive: receive2,
             },
         ) => {
+            // Record the coinductive hypothesis, as the union arms do: a `Cycle` that points at a
+            // function type leads back to this same pair (`'f = #^ -> 'int` against
+            // `#'f -> 'int`), and without the assumption check above that recursion never ends.
+            let snapshot = assumptions.clone();
+            assumptions.insert(key);
+
             let already_on_stack = type_stack.contains(&pattern_id);
             if !already_on_stack {
                 type_stack.push(pattern_id);
@@ -594,6 +600,9 @@ fn check_type_relation<T: TypeLookup>(
 
             if !already_on_stack {
                 type_stack.pop();
+            }
+            if !result {
+                *assumptions = snapshot;
             }
             result
         }
